@@ -11,6 +11,7 @@ ap.add_argument("--props", default=",".join(f"C{i:02d}" for i in range(1, 21)))
 ap.add_argument("--tier", default="quick")
 a = ap.parse_args()
 obs = {}
+allc = {}
 for p in a.props.split(","):
     for s in a.seeds.split(","):
         r = subprocess.run([os.path.join(ROOT, "check"), p, "--tier", a.tier],
@@ -20,6 +21,9 @@ for p in a.props.split(","):
         for k, v in ev["coverage"]["coverage_floors"].items():
             o = obs.setdefault((p, k), {"need": v["need"], "have": []})
             o["have"].append(v["have"])
+        for k, v in ev["coverage"].get("counters", {}).items():
+            if isinstance(v, (int, float)):
+                allc.setdefault(f"{p}|{k}", []).append(v)
         if r.returncode != 0:
             print(f"!! {p} seed {s} exit {r.returncode}: "
                   f"{r.stdout.strip().splitlines()[-1][:160]}")
@@ -30,5 +34,16 @@ for p in a.props.split(","):
         flag = "" if lo >= 3 * o["need"] else "   <-- margin < 3x"
         print(f"{p} {k:50s} need={o['need']:<8} min={lo:<9} max={max(o['have']):<9}{flag}",
               flush=True)
-json.dump({f"{p}|{k}": o for (p, k), o in obs.items()},
-          open(os.path.join(ROOT, "notes", f"floors-{a.tier}.json"), "w"), indent=1)
+path = os.path.join(ROOT, "notes", f"floors-{a.tier}.json")
+old = json.load(open(path)) if os.path.exists(path) else {}
+props = set(a.props.split(","))
+old = {k: v for k, v in old.items() if k.split("|")[0] not in props}
+old.update({f"{p}|{k}": o for (p, k), o in obs.items()})
+json.dump(old, open(path, "w"), indent=1)
+# every counter seen (minimum over the seeds; 0 when absent for some seed)
+n = len(a.seeds.split(","))
+path = os.path.join(ROOT, "notes", f"counters-{a.tier}.json")
+oldc = json.load(open(path)) if os.path.exists(path) else {}
+oldc = {k: v for k, v in oldc.items() if k.split("|")[0] not in props}
+oldc.update({k: (min(v) if len(v) == n else 0) for k, v in allc.items()})
+json.dump(oldc, open(path, "w"), indent=1, sort_keys=True)
